@@ -1,7 +1,7 @@
 (* C20 — ARL packed-bit packing error is bounded and unpack inverts pack.
    Property statements only; every proof is `exact <lemma>` or a vm_compute witness.
    Model: Model/Arl.v (exact arithmetic; h = half the quantum 2^(NEXP-7) in the caller's unit). *)
-From PNC Require Import Base.Util Model.Arl Proofs.ArlProofs.
+From PNC Require Import Base.Util Model.Arl Proofs.ArlProofs Model.ArlFile Proofs.ArlFileProofs.
 Local Open Scope Z_scope.
 
 (* Whenever every scan-order neighbour difference of the field is at most 127 quanta
@@ -62,4 +62,169 @@ Example C20_hyp_inhabited :
   0 < 8 /\ rect [[3; 40; -1000]; [77; 2000; 1999]] = true
   /\ rmax [[3; 40; -1000]; [77; 2000; 1999]] <= 254 * 8
   /\ roundtrip 8 [[3; 40; -1000]; [77; 2000; 1999]] <> [[3; 40; -1000]; [77; 2000; 1999]].
+Proof. vm_compute. repeat split; try reflexivity; discriminate. Qed.
+
+(* =========================== file layer (Model/ArlFile.v) ================================= *)
+From Coq Require String.
+Import String.StringSyntax.
+Delimit Scope string_scope with string.
+Local Open Scope list_scope.
+Local Open Scope Z_scope.
+
+(* (a) The reference decoder inverts the reference encoder for EVERY well-formed content:
+   any number of periods, levels, variables per level, any grid, any padding bytes. *)
+Theorem C20_file_dec_enc : forall ps, forallb wf_period ps = true -> dec (enc ps) = Some ps.
+Proof. exact dec_enc. Qed.
+Print Assumptions C20_file_dec_enc.
+
+(* (b) Layout.  In the encoding of a uniform well-formed content the bytes at
+   spec_offset (t, level, variable) = t * period length + record length * (1 + records before)
+   are exactly that variable's record (label + packed bytes) ... *)
+Theorem C20_file_record_at_offset : forall p0 ps t li vi,
+  forallb wf_period (p0 :: ps) = true -> forallb (same_layout p0) ps = true ->
+  (t < length (p0 :: ps))%nat ->
+  let p := nth t (p0 :: ps) p0 in
+  (li < length (p_levels p))%nat ->
+  (vi < length (l_vars (nth li (p_levels p) (Lvl [] []))))%nat ->
+  slice (spec_offset p0 t li vi) (recl p0) (enc (p0 :: ps))
+  = enc_rec (p_time p) (p_grid p) (Z.of_nat li)
+      (nth vi (l_vars (nth li (p_levels p) (Lvl [] []))) (Var [] 0 0 [] [] [])).
+Proof. exact record_at_spec_offset. Qed.
+Print Assumptions C20_file_record_at_offset.
+
+(* ... and the offset the library computes (numpy structured-dtype arithmetic over the
+   translated thdtype / vhdtype sizes) is that position, for all level/variable tables. *)
+Theorem C20_file_lib_offset : forall p0 t li vi,
+  lib_offset gen_sizes (ncell p0) (lenh p0) (nrecs (p_levels p0)) t
+    (rec_index (p_levels p0) li vi - 1) = spec_offset p0 t li vi.
+Proof. intros. rewrite gen_sizes_std. apply lib_offset_is_spec_offset. Qed.
+Print Assumptions C20_file_lib_offset.
+
+(* (c) Every field of a spec-encoded file, decoded and unpacked, is within one quantum of the
+   field that was packed, first element exact, whenever the field is in the proved range of
+   C20_spec_partial (RMAX <= 127 quanta); the (127q,128q] region stays refuted above. *)
+Theorem C20_file_field_bound_partial : forall ps p l v h rows,
+  forallb wf_period ps = true -> In p ps -> In l (p_levels p) -> In v (l_vars l) ->
+  0 < h -> rect rows = true -> rmax rows <= 254 * h ->
+  Forall (fun r => lenZ r = p_nx p) rows ->
+  v_data v = concat (pack_bytes h rows) ->
+  dec (enc ps) = Some ps
+  /\ let got := unpack_rows h (hdZ (first_row rows)) (rows_of (p_nx p) (v_data v)) in
+     within (2 * h) rows got = true /\ hdZ (first_row got) = hdZ (first_row rows)
+     /\ lenZ (v_data v) = ncell p.
+Proof. exact file_field_bound. Qed.
+Print Assumptions C20_file_field_bound_partial.
+
+(* The library's blank-terminated table parser (readvardef) returns the encoded table when
+   the table is followed by blanks only (this is where the library needs 108 blank bytes). *)
+Theorem C20_file_readvardef_partial : forall nc ls pad fuel,
+  forallb (wf_lvl nc) ls = true ->
+  forallb (fun l => float_ok (l_text l) && negb (blank (l_text l))) ls = true ->
+  blank pad = true -> (length ls <= fuel)%nat ->
+  readvardef fuel (enc_table ls ++ pad) = Some (map lent ls).
+Proof. exact readvardef_enc. Qed.
+Print Assumptions C20_file_readvardef_partial.
+
+(* Tie T: statements over coq/Gen/Arl.v (regenerated from _arl.py on every run). *)
+Theorem C20_gen_sizes : gen_sizes = std_sizes.
+Proof. exact gen_sizes_std. Qed.
+Print Assumptions C20_gen_sizes.
+Theorem C20_gen_label_fields :
+  map (fun f => snd (fst f) * snd f) G.arl_vhdtype = [10; 2; 2; 4; 4; 14; 14]
+  /\ map (fun f => snd (fst f) * snd f) G.arl_thdtype
+     = [10; 2; 2; 4; 4; 14; 14] ++ [4; 3; 2] ++ repeat 7 12 ++ [3; 3; 3; 2; 4]
+  /\ G.arl_timedtype_order = ["timehead"; "vardef"; "hdr"; "surface"; "layers"]%string.
+Proof. exact gen_label_fields. Qed.
+Print Assumptions C20_gen_label_fields.
+Theorem C20_gen_lenh : forall (sfc lay : lvl_t) (nupper : nat),
+  G.arl_LENH (G.arl_srflen (nvars sfc)) (G.arl_laylen (nvars lay) (Z.of_nat nupper + 1))
+  = 108 + table_len (sfc :: repeat lay nupper).
+Proof. exact gen_lenh. Qed.
+Print Assumptions C20_gen_lenh.
+Theorem C20_gen_record_length : forall nx ny hlen,
+  let nc := G.arl_ncell nx ny in
+  let hdr := G.arl_hdrlen nc hlen (G.dtype_itemsize G.arl_thdtype) in
+  G.dtype_itemsize G.arl_thdtype + G.arl_vardeflen hlen + hdr = 50 + nx * ny
+  /\ G.dtype_itemsize (G.arl_lay1dtype ny nx) = 50 + nx * ny
+  /\ hdr = (nx * ny - hlen) - 108
+  /\ G.dtype_itemsize G.arl_thdtype = 50 + 108.
+Proof. exact gen_record_length. Qed.
+Print Assumptions C20_gen_record_length.
+Theorem C20_gen_table_widths :
+  G.arl_readvardef_slices = [(None, Some 6); (Some 6, Some 8); (Some 8, None); (None, Some 4); (Some 4, Some 7); (Some 8, None)]
+  /\ G.arl_writevardef_widths = [6; 2; 4; 3; 1] /\ G.arl_writevardef_extra = 108
+  /\ G.arl_w_label_widths = [2; 4; 14; 14]
+  /\ (forall li, G.arl_w_level li = li + 1)
+  /\ (forall s, G.arl_ksum s = s mod 255)
+  /\ (forall e, G.arl_pack_shift e = 7 - e /\ G.arl_unpack_shift e = 7 - e)
+  /\ (forall g, G.arl_gridx_off g = Z.max 0 ((g - 64) * 1000) /\ G.arl_gridy_off g = Z.max 0 ((g - 64) * 1000)).
+Proof. exact gen_table_widths. Qed.
+Print Assumptions C20_gen_table_widths.
+
+(* ---- witnesses: one period "95 1 1 0 0", constant fields (all codes 127, NEXP = 1) -------- *)
+Definition w_time : list Z := [57; 53; 32; 49; 32; 49; 32; 48; 32; 48].
+Definition w_fixed : list Z :=
+  [84; 69; 83; 84; 32; 32; 48; 32; 48; 32; 32; 57; 48; 46; 48; 48; 32; 32; 32; 48; 46; 48; 48; 32; 32; 32; 49; 46; 48; 48;
+   32; 32; 32; 49; 46; 48; 48; 32; 32; 32; 48; 46; 48; 48; 32; 32; 32; 48; 46; 48; 48; 32; 32; 32; 48; 46; 48; 48; 32; 32;
+   32; 49; 46; 48; 48; 32; 32; 32; 49; 46; 48; 48; 32; 32; 52; 48; 46; 48; 48; 45; 49; 48; 48; 46; 48; 48; 32; 32; 32; 48;
+   46; 48; 48].
+Definition w_prec : list Z := [32; 55; 46; 56; 55; 52; 48; 49; 53; 55; 69; 45; 48; 51].
+Definition w_v0 : list Z := [32; 48; 46; 48; 48; 48; 48; 48; 48; 48; 69; 43; 48; 48].
+Definition w_v5 : list Z := [32; 53; 46; 48; 48; 48; 48; 48; 48; 48; 69; 43; 48; 48].
+Definition w_sfc : list Z := [32; 32; 32; 48; 46; 48].        (* "   0.0" *)
+Definition w_1000 : list Z := [49; 48; 48; 48; 46; 48].       (* "1000.0" *)
+Definition k_PRSS : list Z := [80; 82; 83; 83].
+Definition k_TEMP : list Z := [84; 69; 77; 80].
+Definition w_var (key : list Z) (v1 : list Z) (nc : Z) : var_t :=
+  Var key ((127 * nc) mod 255) 1 w_prec v1 (repeat 127 (Z.to_nat nc)).
+Definition w_period nx ny (ls : list lvl_t) : period_t :=
+  Period w_time [57; 57] w_fixed nx ny [32; 50] (repeat 32 (Z.to_nat (nx * ny - 108 - table_len ls))) ls.
+
+(* Region 3: a well-formed file whose index record has fewer than 108 bytes of padding
+   (5 x 26 cells, LENH = 124): the reference decoder reads it, the library model raises
+   (it maps LENH bytes after the 158-byte label+header as the table). *)
+Definition wit_shortpad := [w_period 5 26 [Lvl w_sfc [w_var k_PRSS w_v0 130]]].
+Theorem C20_file_short_padding_refuted : exists ps,
+  forallb wf_period ps = true /\ forallb cksums_ok ps = true /\ dec (enc ps) = Some ps
+  /\ spec_view ps <> None /\ forallb lib_room ps = false /\ impl_read std_sizes (enc ps) = None.
+Proof. exists wit_shortpad. vm_compute. repeat split; try reflexivity; discriminate. Qed.
+Print Assumptions C20_file_short_padding_refuted.
+
+(* Region 5: two columns (2 x 116 cells, room for the table): the library model raises
+   (cell-bounds code of the lat-lon branch of arlpackedbit.__init__ indexes np.diff(x)[1]). *)
+Definition wit_narrow := [w_period 2 116 [Lvl w_sfc [w_var k_PRSS w_v0 232]]].
+Theorem C20_file_two_columns_refuted : exists ps,
+  forallb wf_period ps = true /\ forallb lib_room ps = true /\ dec (enc ps) = Some ps
+  /\ spec_view ps <> None /\ forallb lib_grid_ok ps = false /\ impl_read std_sizes (enc ps) = None.
+Proof. exists wit_narrow. vm_compute. repeat split; try reflexivity; discriminate. Qed.
+Print Assumptions C20_file_two_columns_refuted.
+
+(* Region 6: the same key at the surface and at an upper level: the library returns the
+   surface variable under both names, the upper-level field cannot be read back. *)
+Definition wit_dupkey :=
+  [w_period 4 62 [Lvl w_sfc [w_var k_TEMP w_v0 248]; Lvl w_1000 [w_var k_TEMP w_v5 248]]].
+Theorem C20_file_shared_key_refuted : exists ps,
+  forallb wf_period ps = true /\ forallb lib_room ps = true /\ forallb lib_grid_ok ps = true
+  /\ forallb keys_disjoint ps = false
+  /\ impl_read std_sizes (enc ps) <> None /\ impl_read std_sizes (enc ps) <> spec_view ps.
+Proof. exists wit_dupkey. vm_compute. repeat split; try reflexivity; discriminate. Qed.
+Print Assumptions C20_file_shared_key_refuted.
+
+(* Region 4: the writer.  maparlpackedbit(mode='write') iterates `for laykey, layvarkeys in
+   props['laykeys']` over the flat list of 4-byte keys that writearlpackedbit passes and raises
+   for every input; the model of the writer is the constant failure (tie H on every write case). *)
+Theorem C20_file_writer_raises_refuted : impl_write_raises = true.
+Proof. reflexivity. Qed.
+Print Assumptions C20_file_writer_raises_refuted.
+
+(* Non-vacuity of the file theorems: a 2-period, 2-level content with different variables at
+   the surface is well formed, uniform, inside the library's domain, and the library model
+   returns the ideal view on its encoding. *)
+Definition ex_file :=
+  [w_period 4 70 [Lvl w_sfc [w_var k_PRSS w_v0 280; w_var [84; 48; 50; 77] w_v5 280]; Lvl w_1000 [w_var k_TEMP w_v5 280]];
+   w_period 4 70 [Lvl w_sfc [w_var k_PRSS w_v5 280; w_var [84; 48; 50; 77] w_v0 280]; Lvl w_1000 [w_var k_TEMP w_v0 280]]].
+Example C20_file_hyp_inhabited :
+  forallb wf_period ex_file = true /\ forallb (same_layout (hd (w_period 0 0 []) ex_file)) (tl ex_file) = true
+  /\ forallb lib_room ex_file = true /\ forallb lib_grid_ok ex_file = true /\ forallb keys_disjoint ex_file = true
+  /\ impl_read std_sizes (enc ex_file) = spec_view ex_file /\ spec_view ex_file <> None.
 Proof. vm_compute. repeat split; try reflexivity; discriminate. Qed.
